@@ -11,11 +11,18 @@
    - a whole definition `name = words` (identifier name, dotted or not, not disabled, no attributes
      printed) parses back to exactly that definition, at every width, also when followed by further text
      (cobj level);
-   - the parser never yields a lone unquoted backslash as a value word, so words_ok loses nothing there.
-   Decided by correspondence + oracle only (every run): attributes (levels 2/3, wrapped help text, types),
-   disabled marks, scopes and nesting, levels' views, byte-identical second print. *)
+   - the parser never yields a lone unquoted backslash as a value word, so words_ok loses nothing there;
+   - WHOLE TREES at attributes level 0, any print width (Proofs/TreeRoundtrip.v): for every tree in dtree_ok
+     (the shape scope.adopt builds: identifier names, dotted-name prefix scopes with one child, value words in
+     words_ok, no deprecated/template/include objects) the printed text parses, and the re-parsed tree has the
+     same names, nesting, order, disabled marks, merge flags, word texts and quote styles (and empty attribute
+     lists); printing the re-parsed tree gives byte-identical text (C01_tree_level0, C01_text_fixpoint_level0);
+   - attributes level 3 for trees whose attributes are the bool / int ones (C01_tree_level3_partial).
+   Decided by correspondence + oracle only (every run): string-valued attributes (wrapped help text), .type,
+   .call, levels 1/2 views, deprecated definitions, dotted names at level 3, and that every parsed tree lies in
+   dtree_ok (evaluated per tree, see the stream). *)
 From Coq Require Import List Ascii String ZArith.
-From Phil Require Import Base Tokenizer Tree Parser Show QuoteProofs WordsRoundtrip.
+From Phil Require Import Base Tokenizer Tree Parser Show QuoteProofs WordsRoundtrip ShowErase TreeRoundtrip.
 Import ListNotations.
 
 Theorem C01_quoted_word_roundtrip : forall q s rest line,
@@ -56,3 +63,32 @@ Theorem C01_parser_never_yields_backslash_word : forall fuel s line hc last lead
   caw fuel s line hc last [] lead = Ok (ws, s', l') -> Forall not_bs_word ws.
 Proof. exact caw_never_yields_backslash_word. Qed.
 Print Assumptions C01_parser_never_yields_backslash_word.
+
+Theorem C01_tree_level0 : forall o l w text,
+  forallb (dtree_ok []) l = true ->
+  as_str l [] None 0 w = Ok text ->
+  exists l', parse o text = Ok l' /\ map erase_obj l' = map erase_all l.
+Proof. exact parse_as_str_level0_dotted. Qed.
+Print Assumptions C01_tree_level0.
+
+Theorem C01_text_fixpoint_level0 : forall o l w text,
+  forallb (dtree_ok []) l = true ->
+  as_str l [] None 0 w = Ok text ->
+  exists l', parse o text = Ok l'
+    /\ map erase_obj l' = map erase_all l
+    /\ as_str l' [] None 0 w = Ok text
+    /\ forall p2 w2, as_str l' p2 None 0 w2 = as_str l p2 None 0 w2.
+Proof. exact print_parse_print_level0_dotted. Qed.
+Print Assumptions C01_text_fixpoint_level0.
+
+Theorem C01_tree_level3_partial : forall o l w text,
+  forallb atree_ok l = true ->
+  as_str l [] None 3 w = Ok text ->
+  exists l', parse o text = Ok l' /\ map erase_obj l' = map erase3 l.
+Proof. exact parse_as_str_level3. Qed.
+Print Assumptions C01_tree_level3_partial.
+
+(* the simpler brace-only domain is contained in dtree_ok *)
+Theorem C01_domain_contains_plain_trees : forall o, tree_ok o = true -> dtree_ok [] o = true.
+Proof. exact tree_ok_dtree_ok. Qed.
+Print Assumptions C01_domain_contains_plain_trees.
